@@ -558,6 +558,16 @@ class Runner:
         self.black = _attr_blacklist()
         self.verdict = None
 
+    def root_class(self, case):
+        """the class of the two dotdicts of a case: dotdict itself, or (case["root"] == "sub") a user subclass
+        of it -- the property is about dotdict and what derives from it (apidict does): a level is a level
+        whatever dotdict class holds it"""
+        if case.get("root") != "sub":
+            return self.dotdict
+        if getattr(self, "_sub", None) is None:
+            self._sub = type("subdict", (self.dotdict,), {"__slots__": ()})
+        return self._sub
+
     # -- eval spy ---------------------------------------------------------------------------------
     def spy(self, expr, g=None, l=None):
         f = sys._getframe(1)
@@ -575,7 +585,9 @@ class Runner:
 
     def fail(self, i, op, why):
         if self.verdict is None:
-            self.verdict = "op %d %s: %s" % (i, "/".join(str(x) for x in op[:3]), why)
+            self.verdict = "op %d %s: %s%s" % (i, "/".join(str(x) for x in op[:3]), why,
+                                               " [the dotdicts of this case are instances of a dotdict subclass]"
+                                               if getattr(self, "sub_root", False) else "")
 
     # -- one operation on the real object -----------------------------------------------------------
     def apply(self, slots, op, s, key, val):
@@ -660,6 +672,7 @@ class Runner:
         return lk, mb
 
     def run(self, case):
+        self.sub_root = case.get("root") == "sub"
         had = "eval" in self.m.__dict__
         self.m.eval = self.spy
         try:
@@ -670,7 +683,7 @@ class Runner:
 
     def _run(self, case):
         base = self.base
-        slots = [self.dotdict(), self.dotdict()]
+        slots = [self.root_class(case)(), self.root_class(case)()]
         out = []
         for i, op4 in enumerate(case["ops"]):
             op, s, key, val = op4
@@ -699,7 +712,7 @@ class Runner:
         saved = self.m.__dict__.pop("eval", None)
         try:
             warnings.simplefilter("ignore", SyntaxWarning)
-            slots = [self.dotdict(), self.dotdict()]
+            slots = [self.root_class(case)(), self.root_class(case)()]
             for op4 in case["ops"][:i]:
                 try:
                     self.apply(slots, *op4)
@@ -1183,7 +1196,8 @@ class C16(Suite):
             "setdefault/get/in on paths that hold None), None among the random values and lists of 11-13 mappings; "
             "an index-expression grid and stream (keys such as a[a[0].b-1].b, a[sel.idx+1].b over a tree whose values serve "
             "as indices; present, absent, mistyped and out-of-range references); "
-            "a heap stream (random nested dotdict/list trees, copy.copy, one assignment through the copy at a random "
+            "a quarter of the random cases and half of the mutating grid cases run on a user SUBCLASS of dotdict as root "
+            "(levels auto-created below it are plain dotdicts); a heap stream (random nested dotdict/list trees, copy.copy, one assignment through the copy at a random "
             "mapping: how original and copy read afterwards, against the object-identity model); "
             "non-trivial = at least one assignment succeeded and a later operation on a multi-component, indexed or "
             "'..' key returned without exception; distinct by operation sequence") % (len(KEYS1), len(VALUES))
@@ -1208,9 +1222,20 @@ class C16(Suite):
 
     # -- cases ------------------------------------------------------------------------------------
     def cases(self, tier, rng):
+        n = 0
         for c in self.all_cases(tier, rng):
-            if in_scope(c):
+            if not in_scope(c):
+                continue
+            n += 1
+            if c.get("stream") == "heap":
                 yield c
+            elif c.get("stream", "").endswith("grid"):
+                yield c
+                # the same grid on a dotdict SUBCLASS root (levels created below it are plain dotdicts)
+                if any(op in ("del", "pop", "set", "setdefault", "copy", "deepcopy") for op, *_ in c["ops"][3:]) and n % 2 == 0:
+                    yield {**c, "root": "sub"}
+            else:
+                yield ({**c, "root": "sub"} if n % 4 == 0 else c)
 
     def all_cases(self, tier, rng):
         for key in KEYS1:
@@ -1315,6 +1340,8 @@ class C16(Suite):
         return None
 
     def classify(self, c, out):
+        if c.get("root") == "sub":
+            return "subclass:" + self.classify({k: v for k, v in c.items() if k != "root"}, out)
         if c.get("stream") == "heap":
             return "heap:" + ("list" if any(kind == "i" for kind, _ in c["steps"]) else "levels")
         flags = ""
